@@ -147,6 +147,12 @@ func doRun(s *plrt.Script, j *job) string {
 	return b.String()
 }
 
+var zoneNames = []string{"Asia/Shanghai", "Asia/Tokyo", "Asia/Kolkata", "Asia/Dubai", "Asia/Seoul", "Asia/Singapore", "Asia/Bangkok", "Asia/Jakarta", "Asia/Karachi", "Asia/Tehran", "Asia/Kathmandu",
+	"Europe/London", "Europe/Berlin", "Europe/Paris", "Europe/Moscow", "Europe/Madrid", "Europe/Rome", "Europe/Kiev", "Europe/Lisbon", "Europe/Oslo", "Europe/Athens",
+	"America/New_York", "America/Chicago", "America/Denver", "America/Los_Angeles", "America/Sao_Paulo", "America/Mexico_City", "America/Bogota", "America/Lima", "America/Toronto", "America/Halifax", "America/St_Johns",
+	"Africa/Cairo", "Africa/Lagos", "Africa/Nairobi", "Africa/Johannesburg", "Australia/Sydney", "Australia/Perth", "Australia/Adelaide", "Pacific/Auckland", "Pacific/Honolulu", "Pacific/Fiji", "Atlantic/Reykjavik",
+	"UTC", "+1", "+2", "-4", "+5:30", "-9", "+12", "+13", "-11", "Nowhere/City", "Mars/Olympus", "+99"}
+
 var sharedTemplates = []map[string]string{
 	{"main.p": "grok(_, \"%{WORD:w1} %{INT:n:int}\")\nadd_key(copy, w1)\nprobe(\"g\", w1, n)\nfor i in [1, 2, 3] { add_key(last, i) }"},
 	{"main.p": "add_pattern(\"mine\", \"[a-z]+\")\nif true {\n add_pattern(\"inner\", \"%{mine}\\\\d\")\n ok = grok(_, \"%{inner:x}\")\n probe(\"ok\", ok, x)\n}\nuse(\"lib.p\")", "lib.p": "add_key(from_lib, len(message))\ngrok(_, \"%{NOTSPACE:first}\")\nset_tag(libtag, \"v\")"},
@@ -155,6 +161,10 @@ var sharedTemplates = []map[string]string{
 	{"main.p": "v = 1\nw = \"top\"\nl5 = [1]\nif n1 == 5 {\n x = 1 + \"a\"\n}\nfor i in [1, 2] {\n if message == \"\" { y = l5[5] }\n}\nadd_key(ok, v)"},
 	{"main.p": "probe(\"names\", v, w, x, y, i)\nadd_key(seen_v, v)\nadd_key(seen_w, w)"},
 	{"main.p": "a = [0, 0]\na[0] = len(message)\na[1] += 7\nh = [[0], [1]]\nh[0][0] += len(message)\nm = {\"k\": [0]}\nm[\"k\"][0] = len(message)\nprobe(\"a\", a, h, m)\nadd_key(sum, a[0] + a[1] + h[0][0] + m[\"k\"][0])"},
+	// builtins with an optional argument that selects shared lookup data (time zones), each set with other zones
+	{"main.p": "add_key(ts, \"2021-05-27 06:54:14\")\nif n1 == 5 {\n default_time(ts, \"Asia/Shanghai\")\n} elif n1 == \"s\" {\n default_time(ts, \"America/New_York\")\n} else {\n default_time(ts, \"+3\")\n}\nadd_key(ts2, \"2021-05-27 06:54:14\")\ndefault_time(ts2, \"Europe/Berlin\")"},
+	{"main.p": "add_key(ts, \"2021-05-27 06:54:14\")\ndefault_time(ts, \"Asia/Tokyo\")\nadd_key(t2, \"2021-05-27 06:54:14\")\ndefault_time(t2, \"Nowhere/City\")\nadd_key(t3, \"2021-05-27 06:54:14\")\ndefault_time(t3, \"Australia/Sydney\")\ndatetime(n1, \"ms\", \"RFC3339\")"},
+	{"main.p": "add_key(ts, \"2021-05-27 06:54:14\")\ndefault_time(ts, \"Africa/Cairo\")\nsql_cover(q)\nadd_key(q2, \"SELECT * FROM files WHERE dir = 'C:\\\\' -- user's home\\nAND owner = 7\")\nsql_cover(q2)\nadd_key(q3, \"SELECT * FROM files WHERE dir = 'C:\\\\'\")\nsql_cover(q3)"},
 	{"main.p": "if n1 == 5 { x = 1 + \"a\" }\nadd_key(ok, true)\nuse(\"lib.p\")", "lib.p": "if message == \"\" { exit() }\ngrok(_, \"%{GREEDYDATA:all}\")\nadd_key(seen, all)"},
 }
 
@@ -163,7 +173,16 @@ func genScenario(t *rapid.T) (*scenario, bool) {
 	nsets := rapid.IntRange(1, 3).Draw(t, "nsets")
 	usesGrokOrUse := map[int]bool{}
 	for i := 0; i < nsets; i++ {
-		if rapid.IntRange(0, 3).Draw(t, "generated") == 0 {
+		if rapid.IntRange(0, 5).Draw(t, "zones") == 0 {
+			// a set that names time zones this process may not have looked up yet
+			var b strings.Builder
+			for z, nz := 0, rapid.IntRange(2, 5).Draw(t, "nzones"); z < nz; z++ {
+				zone := rapid.SampledFrom(zoneNames).Draw(t, "zone")
+				fmt.Fprintf(&b, "add_key(ts%d, \"2021-05-27 06:54:14\")\nif len(message) %% %d == 0 {\n default_time(ts%d, %q)\n}\n", z, z+1, z, zone)
+			}
+			sc.Sets = append(sc.Sets, map[string]string{"main.p": b.String()})
+			usesGrokOrUse[i] = true
+		} else if rapid.IntRange(0, 3).Draw(t, "generated") == 0 {
 			g := sgen.New(t)
 			g.Probes, g.Loops, g.Slices, g.AddKey = true, true, true, true
 			g.Calls = []func(*sgen.G, int) *gen.Node{func(g *sgen.G, d int) *gen.Node { return g.BuiltinCall(d) }}
@@ -188,8 +207,21 @@ func genScenario(t *rapid.T) (*scenario, bool) {
 			loaders++
 		} else if k <= 1 {
 			j.Kind = "parse"
-			if rapid.IntRange(0, 2).Draw(t, "literals") == 0 {
+			if lk := rapid.IntRange(0, 3).Draw(t, "literals"); lk == 0 {
 				j.Text = literalTexts[rapid.IntRange(0, len(literalTexts)-1).Draw(t, "littext")]
+			} else if lk == 1 {
+				// keywords in letter-case patterns this process may not have lexed yet
+				kw := func(w string) string {
+					b := []byte(w)
+					for i := range b {
+						if rapid.Bool().Draw(t, "upper") {
+							b[i] = b[i] - 'a' + 'A'
+						}
+					}
+					return string(b)
+				}
+				j.Text = fmt.Sprintf("x = %s\ny = [%s, %s, %s]\n%s x == %s {\n  z = 1\n} %s y {\n  z = 2\n} %s {\n  z = 3\n}\n%s e %s y {\n  %s z { %s }\n  %s\n}\n",
+					kw("true"), kw("false"), kw("nil"), kw("null"), kw("if"), kw("true"), kw("elif"), kw("else"), kw("for"), kw("in"), kw("if"), kw("break"), kw("continue"))
 			} else if rapid.Bool().Draw(t, "badsrc") {
 				j.Text = rapid.SampledFrom([]string{"x = = 1", "-0x", "a[", "\"\\q\"", "for a in 1e {}", "if a {"}).Draw(t, "bad")
 			} else {
@@ -260,21 +292,14 @@ func execute(t rk.Failer, slot string, sc *scenario) {
 		}
 		loaded[i] = ok
 	}
-	for _, j := range sc.Jobs {
-		switch j.Kind {
-		case "parse":
-			j.want = doParse(j.Text)
-		case "load":
-			j.want = doLoad(loadSets[j.Set])
-		default:
-			j.want = doRun(loaded[j.Set]["main.p"], j)
-		}
-	}
 	saveCurrent(sc)
 	old := runtime.GOMAXPROCS(sc.Procs)
 	defer runtime.GOMAXPROCS(old)
 	var mu sync.Mutex
 	var failures []string
+	// the concurrent executions come first (whatever is initialised lazily is initialised under concurrency);
+	// the sequential references are computed afterwards
+	results := make([][]string, len(sc.Jobs))
 	for rep := 0; rep < sc.Reps; rep++ {
 		var wg sync.WaitGroup
 		start := make(chan struct{})
@@ -297,17 +322,29 @@ func execute(t rk.Failer, slot string, sc *scenario) {
 				default:
 					got = doRun(loaded[j.Set]["main.p"], j)
 				}
-				if got != j.want {
-					mu.Lock()
-					failures = append(failures, fmt.Sprintf("goroutine %d (%s, repetition %d) differs from its sequential result\nalone:      %s\nconcurrent: %s", ji, j.Kind, rep, clip(j.want), clip(got)))
-					mu.Unlock()
-				}
+				mu.Lock()
+				results[ji] = append(results[ji], got)
+				mu.Unlock()
 			}(ji, j)
 		}
 		close(start)
 		wg.Wait()
-		if len(failures) > 0 {
-			break
+	}
+	for _, j := range sc.Jobs {
+		switch j.Kind {
+		case "parse":
+			j.want = doParse(j.Text)
+		case "load":
+			j.want = doLoad(loadSets[j.Set])
+		default:
+			j.want = doRun(loaded[j.Set]["main.p"], j)
+		}
+	}
+	for ji, j := range sc.Jobs {
+		for rep, got := range results[ji] {
+			if got != j.want && len(failures) == 0 {
+				failures = append(failures, fmt.Sprintf("goroutine %d (%s, repetition %d) differs from its sequential result\nalone:      %s\nconcurrent: %s", ji, j.Kind, rep, clip(j.want), clip(got)))
+			}
 		}
 	}
 	clearCurrent()
